@@ -16,9 +16,14 @@ EXPLANATION = (
     "q >= f64::MAX/factor => MAX, q <= f64::MIN/factor => MIN, otherwise the product q*factor is truncated by a "
     "float->int cast (i64 below 2^63, i128 above) and handed to the exact integer constructors. R3: no panic is "
     "reachable and every loop is bounded in Unit x f64 (any f64 including NaN/inf), to_seconds/to_unit, the from_* "
-    "float constructors and Duration x f64. NOT decided (floating-point error bounds, out of reach of a static "
-    "argument here): every ulp / rounding / monotonicity clause and 'exactly the product when it is a whole number "
-    "of ns below 2^53'.")
+    "float constructors and Duration x f64. R4/R5: in Duration x f64 the integer converted is the integer the integrality "
+    "test certified, and the tolerance is of the order of the machine epsilon. R6-R8 (Duration -> float, hv/fperr.py + "
+    "rules/c18_out.py): a static rounding-error analysis of the float expression tree of every path of to_seconds and of "
+    "to_unit per unit proves |result - exact| <= 8u*max(|exact|, one second) (u = 2^-53; the bound derived today is 2.6u for "
+    "to_seconds and at most 4.7u for to_unit), the correct sign (error below the smallest non-zero value; zero maps to "
+    "zero) and monotonicity (path regions tile [MIN,MAX]; computed forward differences >= 0 for every kind of unit step; "
+    "seams compared by constant folding). NOT decided: the float -> Duration error clauses ('rounded to the nearest double "
+    "and truncated', 'exactly the product when it is a whole number of ns below 2^53') and the Duration x f64 error bound.")
 
 F64_MAX = 1.7976931348623157e308
 
@@ -328,6 +333,10 @@ def run(chk, F, tier):
     integer_certification(chk, F)
     unit_f64(chk, F)
     panic_free(chk, F)
+    from . import c18_out
+    c18_out.run_rule(chk, F)
     eng, D = ctx(F)
     chk.extra["engine_stats"] = dict(eng.stats)
-    chk.assumptions.append("ulp / rounding / monotonicity clauses are floating-point error bounds: NOT decided by this check")
+    chk.assumptions.append("IEEE-754 binary64 round-to-nearest arithmetic for + - * / and integer->double conversions (the standard model "
+                           "fl(x op y) = (x op y)(1+d), |d| <= 2^-53, plus 2^-1074 on underflow) - what Rust guarantees for f64")
+    chk.assumptions.append("float -> Duration rounding clauses and the Duration x f64 error bound: NOT decided by this check")
